@@ -1502,7 +1502,7 @@ class System:
         if isinstance(self._g[cidx], RLoss) or isinstance(self._g[cidx], VLoss):
             raise ValueError("Loss components does not support load phases!")
 
-        self._g.attrs["phase_conf"][name] = phase_conf
+        self._g.attrs["phase_conf"][self._g[cidx]._params["name"]] = phase_conf
 
     def phases(self) -> pd.DataFrame:
         """Return load phases and parameters for all system components.
